@@ -222,14 +222,17 @@ func c08callsConvert(body *ast.BlockStmt, helpers map[string]bool) bool {
 func c08extract(repo, genDir string) error {
 	fset := token.NewFileSet()
 	funcs := map[string]*ast.FuncDecl{}
-	for _, name := range []string{"fast/index.go", "fast/slice.go", "fast/builtin.go"} {
+	for _, name := range []string{"fast/index.go", "fast/slice.go", "fast/builtin.go", "fast/convert.go"} {
 		f, err := parser.ParseFile(fset, filepath.Join(repo, name), nil, 0)
 		if err != nil {
 			return err
 		}
 		for _, d := range f.Decls {
 			if fd, ok := d.(*ast.FuncDecl); ok && fd.Body != nil {
-				funcs[fd.Name.Name] = fd
+				// a method wins over a package-level function of the same name (convert)
+				if old := funcs[fd.Name.Name]; old == nil || fd.Recv != nil {
+					funcs[fd.Name.Name] = fd
+				}
 			}
 		}
 	}
@@ -296,6 +299,33 @@ func c08extract(repo, genDir string) error {
 	fmt.Fprintf(&b, "/-- vectorPlace and vectorPtrPlace convert their index to int -/\ndef placeConverts : Bool := %s\n", flag("vectorPlace", "vectorPtrPlace"))
 	fmt.Fprintf(&b, "/-- slice.go sliceIndex converts a bound to int -/\ndef sliceConverts : Bool := %s\n", flag("sliceIndex"))
 	fmt.Fprintf(&b, "/-- builtin.go compileMake converts a size to int -/\ndef makeConverts : Bool := %s\n", flag("compileMake"))
+	// Comp.convert (fast/convert.go): is a typed constant checked for representability in the target
+	// type (a call of convertNumericConst inside the `if e.Const()` branch) or just wrapped by reflect?
+	checks := "false"
+	if fd := funcs["convert"]; fd != nil && fd.Recv != nil {
+		ast.Inspect(fd.Body, func(n ast.Node) bool {
+			ifs, ok := n.(*ast.IfStmt)
+			if !ok {
+				return true
+			}
+			if call, ok := ifs.Cond.(*ast.CallExpr); ok {
+				if sel, ok := call.Fun.(*ast.SelectorExpr); ok && sel.Sel.Name == "Const" && c08ident(sel.X) == "e" {
+					ast.Inspect(ifs.Body, func(m ast.Node) bool {
+						if c2, ok := m.(*ast.CallExpr); ok {
+							if s2, ok := c2.Fun.(*ast.SelectorExpr); ok && s2.Sel.Name == "convertNumericConst" {
+								checks = "true"
+							}
+						}
+						return true
+					})
+				}
+			}
+			return true
+		})
+	} else {
+		return fmt.Errorf("convert.go: method convert not found")
+	}
+	fmt.Fprintf(&b, "/-- convert.go Comp.convert checks that a typed constant is representable in the target type -/\ndef constConvChecks : Bool := %s\n", checks)
 	b.WriteString("\nend Gen.IndexArms\n")
 	return os.WriteFile(filepath.Join(genDir, "IndexArms.lean"), []byte(b.String()), 0o644)
 }
